@@ -1006,9 +1006,14 @@ Patch Parser::parse_normal_patch(Patch& patch)
             current_hunk.lines.back().line.newline = NewLine::None;
         }
 
-        // Expect --- if 'c' command
+        // Expect --- if 'c' command. Any other line starting with a dash, such as the
+        // '--- name' header of a following patch, is not ours to consume.
         if (m_file.peek() == '-') {
-            get_line(patch_line, &newline);
+            auto separator_pos = m_file.tellg();
+            if (get_line(patch_line, &newline) && patch_line != "---") {
+                --m_line_number;
+                m_file.seekg(separator_pos);
+            }
         }
 
         for (LineNumber i = 0; i < current_hunk.new_file_range.number_of_lines; ++i) {
